@@ -7,7 +7,7 @@ from common import (coqchk, Rng, assumptions, coq_bytes, coq_eval, coq_make, har
 PROP = "C19"
 THEOREMS = ["C19_model_smoke", "C19_invariant_every_interleaving", "C19_no_underflow", "C19_conservation", "C19_exclusive", "C19_mut_unshared",
             "C19_frozen_bytes_constant", "C19_write_needs_mut", "C19_all_returned", "C19_blocks_only_if_empty", "C19_release_batch",
-            "C19_bucket_choice", "C19_waits_although_buffer_available_refuted"]
+            "C19_bucket_choice", "C19_waits_although_buffer_available_refuted", "C19_source_statement_order"]
 PRELUDE = "From NW Require Import Base.Bytes Model.PoolTok Conf.CodecConf Conf.PoolConf.\n"
 
 
@@ -194,6 +194,17 @@ def run(tier, replay=None):
                     c, t = gen_pool_case(rr, rr.randint(5, 40))
                 cases.append(c)
                 tms.append(t)
+        # contention on a multi-threaded runtime (supporting evidence for the interleaving theorems; found nothing = no claim)
+        if not replay:
+            cont = [{"contend": True, "count": cnt, "tasks": tk, "rounds": 6000 if not thorough else 40000} for cnt, tk in ((1, 8), (2, 6), (3, 12))]
+            cobs, chout = run_harness("pool", cont, "release", tag=tag + "cont", timeout=600)
+            if cobs is None:
+                violations.append(("pool contention run crashed or hung: " + chout[-300:], cont[0], None))
+            else:
+                stats["contention_runs"] = stats.get("contention_runs", 0) + len(cont)
+                for cc, co in zip(cont, cobs):
+                    if co.get("panics") or co.get("hung") or co.get("available") != cc["count"] or co.get("in_use") != 0:
+                        violations.append((f"contended hand-over of {cc['count']} buffer(s) between {cc['tasks']} tasks: {co.get('panics')} acquirers panicked, hung={co.get('hung')}, afterwards available={co.get('available')} in_use={co.get('in_use')}", cc, None))
         terms = []
         for prof in ("debug", "release"):
             obs, hout = run_harness("pool", cases, prof, tag=tag, timeout=600)
